@@ -102,16 +102,13 @@ func (mp MerklePath) Pretty() string {
 }
 
 // GetKey will return a byte representation of the key
-// after URL escaping the key element
 func (mp MerklePath) GetKey(i uint64) ([]byte, error) {
 	if i >= uint64(len(mp.KeyPath)) {
 		return nil, fmt.Errorf("index out of range. %d (index) >= %d (len)", i, len(mp.KeyPath))
 	}
-	key, err := url.PathUnescape(mp.KeyPath[i])
-	if err != nil {
-		return nil, err
-	}
-	return []byte(key), nil
+	// the key path holds raw keys (String escapes them for display only): unescaping here would
+	// make a name written with percent escapes prove the key of the plain name
+	return []byte(mp.KeyPath[i]), nil
 }
 
 // Empty returns true if the path is empty
